@@ -204,7 +204,7 @@ pub fn run(run: &Run) {
          through EVERY public operation (allows and classification of both classes, the 8 context rules and registered rules at every offset, stabilize with 7 \
          closures, the 5 Rules methods x 4 profiles, prepare/enforce/compare through Profile and PrecisFastInvocation, Display/Debug of every error, \
          Codepoints comparisons) under catch_unwind with overflow checks on. Oracle: the call returns (no panic; returned text is valid UTF-8). Non-trivial: \
-         string with >= 2 characters and a multi-byte character, or a non-scalar / out-of-range numeric argument; distinct = distinct input. Plus the deterministic long-input / call-order batteries of DESIGN.md 8.1 that apply to this property (alignment sweeps 0..72 and around 128..65536 bytes, runs and exact counts, sandwiches and multi-megabyte inputs, exhaustive pair sets, plane/byte aliases, hash-colliding pairs back to back, owned arguments with spare capacity); each battery is a finite list enumerated completely and appears as its own section in 'sections'.",
+         string with >= 2 characters and a multi-byte character, or a non-scalar / out-of-range numeric argument; distinct = distinct input. Plus the deterministic long-input / call-order batteries of DESIGN.md 8.1 and 8.2 that apply to this property (extreme scale, mark neighbours, distinct runs with repeats, environment children, thread lifetime, concurrent distinct inputs; alignment sweeps 0..72 and around 128..65536 bytes, runs and exact counts, sandwiches and multi-megabyte inputs, exhaustive pair sets, plane/byte aliases, hash-colliding pairs back to back, owned arguments with spare capacity); each battery is a finite list enumerated completely and appears as its own section in 'sections'.",
     );
     run.assume("a hard crash (abort, stack overflow) kills the checker: ./check then re-runs single-threaded with a breadcrumb file to isolate the input and reports it as a violation");
     let (a, maxlen) = run.pick((24u64, 4u32), (40u64, 4u32));
